@@ -75,7 +75,10 @@ class BroadcastBootstrapEndpoint(DatagramProtocol):
         if data.startswith(HDR_ANNOUNCE):
             if self.overlay.get_prefix() == data[len(HDR_ANNOUNCE):]:
                 self.logger.debug("Received data from beacon %s: attempting walk!", repr(addr))
-                self.overlay.walk_to(addr)
+                try:
+                    self.overlay.walk_to(addr)
+                except Exception:
+                    self.logger.exception("Exception occurred while walking to beacon %s!", repr(addr))
             # Otherwise: valid, but not for our overlay
         elif data.startswith(self.overlay.get_prefix()):
             self.logger.debug("Walk success by %s: attempting handoff!", repr(addr))
